@@ -8,8 +8,8 @@
     * the frame is written downwards from a 16-byte aligned address, one 8-byte slot per entry,
       RSP ends 16-byte aligned (the alignment assertion can never fire),
     * the space left below RSP is the requested length plus at most 48 bytes of padding.
-  `frame_pops_partial`: that POP returns the entries in order is tied to the implementation by the
-  correspondence run (which executes the POPs); the slot arithmetic is proved below.
+  `frame_contents` / `frame_pops`: the slots above RSP hold argc, argv pointers, 0, envp pointers, 0 in this order and the
+  load each POP performs returns them one after the other (whenever it succeeds, which the correspondence run observes).
 -/
 import AxVerif.Props.C10
 import AxVerif.Model.Step
@@ -209,6 +209,187 @@ theorem init_spec (s : Machine) (hm : s.mem.WF) (hno : NoOverlap s.mem) (len : N
                   refine ⟨ar, har, hare.1, hare.2.1, by rw [hare.2.2.1, htot], ?_, ?_⟩
                   · simp only [hrsp]; rw [htopeq]; exact hfa.2.1
                   · simp only [hrsp]; rw [htopeq]; exact hfa.2.2.1
+
+/-! ## what POP sees -/
+
+/-- the bytes of the 8-byte slot at `a` are the little-endian bytes of `v` -/
+def SlotHolds (m : Mem) (a v : Nat) : Prop := ∀ j, j < 8 → byteAt m (a + j) = (leBytes 8 v)[j]?
+
+/-- **The frame is what was laid out**: after `writeLayout m vs top`, the k-th value sits in the slot at `top − 8k`
+    (the first value highest), every value fits 64 bits, and no byte at or above `top + 8` was touched. -/
+theorem writeLayout_contents (vs : List Nat) : ∀ (m : Mem) (hm : m.WF) (hno : NoOverlap m) (top top' : Nat) (m' : Mem),
+    writeLayout m vs top = .ok (top', m') →
+    8 * vs.length ≤ top ∧
+    (∀ k (hk : k < vs.length), vs[k] < U64 ∧ SlotHolds m' (top - 8 * k) vs[k]) ∧
+    (∀ x, top + 8 ≤ x → byteAt m' x = byteAt m x) := by
+  induction vs with
+  | nil =>
+    intro m hm hno top top' m' h
+    simp only [writeLayout, Out.ok.injEq, Prod.mk.injEq] at h
+    obtain ⟨rfl, rfl⟩ := h
+    exact ⟨by simp, fun k hk => by simp at hk, fun _ _ => rfl⟩
+  | cons v vs ih =>
+    intro m hm hno top top' m' h
+    unfold writeLayout at h
+    cases hw : memWriteN m 8 top v with
+    | err => simp [hw] at h
+    | panic => simp [hw] at h
+    | ok m1 =>
+      simp only [hw] at h
+      split at h
+      · cases h
+      · rename_i hge
+        have hv : v < U64 ∧ memWriteBytes m top (leBytes 8 v) = .ok m1 := by
+          unfold memWriteN at hw
+          split at hw
+          · cases hw
+          · exact ⟨by simp only [U64]; omega, hw⟩
+        obtain ⟨hwf1, hno1⟩ := Ax.C08.write_preserves m hm hno top _ m1 hv.2
+        obtain ⟨_, _, _, hb⟩ := Ax.C08.write_spec m hm hno top _ m1 hv.2
+        rw [leBytes_length] at hb
+        obtain ⟨hlen, hslots, hframe⟩ := ih m1 hwf1 hno1 (top - 8) top' m' h
+        refine ⟨by simp only [List.length_cons]; omega, ?_, ?_⟩
+        · intro k hk
+          cases k with
+          | zero =>
+            refine ⟨hv.1, ?_⟩
+            intro j hj
+            simp only [Nat.mul_zero, Nat.sub_zero, List.getElem_cons_zero]
+            rw [hframe (top + j) (by omega), hb (top + j)]
+            have : top ≤ top + j ∧ top + j < top + 8 := by omega
+            simp only [this, and_self, if_true]
+            congr 1; omega
+          | succ k =>
+            simp only [List.length_cons, Nat.add_lt_add_iff_right] at hk
+            have := hslots k hk
+            simp only [List.getElem_cons_succ]
+            refine ⟨this.1, ?_⟩
+            have e : top - 8 * (k + 1) = top - 8 - 8 * k := by omega
+            rw [e]; exact this.2
+        · intro x hx
+          rw [hframe x (by omega), hb x]
+          have : ¬ (top ≤ x ∧ x < top + 8) := by omega
+          simp only [this, if_false]
+
+/-- **What POP sees.**  After `init_stack_program_start` the slots above RSP hold, in ascending order,
+    argc, the argv pointers, 0, the envp pointers, 0 — where the pointers are exactly the addresses at which
+    `allocStrings` placed the NUL-terminated copies (`allocStrings_spec`).  ax's POP loads from RSP + 8 and then adds 8
+    to RSP, so successive POPs return the entries of `layout` one after the other. -/
+theorem frame_contents (s : Machine) (hm : s.mem.WF) (hno : NoOverlap s.mem) (len : Nat) (argv envp : List (List Byte))
+    (start : Nat) (s' : Machine) (h : initStackProgramStart s len argv envp = .ok (start, s')) :
+    ∃ aAddrs eAddrs m1 m2,
+      allocStrings s.mem "arg" 0 argv = .ok (aAddrs, m1) ∧ allocStrings m1 "env" 0 envp = .ok (eAddrs, m2) ∧
+      ∀ k (hk : k < ([argv.length] ++ aAddrs ++ [0] ++ eAddrs ++ [0]).length),
+        ([argv.length] ++ aAddrs ++ [0] ++ eAddrs ++ [0])[k] < U64 ∧
+        SlotHolds s'.mem ((s'.regs.get RSP).toNat + 8 + 8 * k) ([argv.length] ++ aAddrs ++ [0] ++ eAddrs ++ [0])[k] := by
+  unfold initStackProgramStart at h
+  cases ha : allocStrings s.mem "arg" 0 argv with
+  | err => simp [ha] at h
+  | panic => simp [ha] at h
+  | ok r1 =>
+    obtain ⟨aAddrs, m1⟩ := r1
+    simp only [ha] at h
+    obtain ⟨hwf1, hno1, hl1, _⟩ := allocStrings_spec s.mem hm hno "arg" 0 argv aAddrs m1 ha
+    cases he : allocStrings m1 "env" 0 envp with
+    | err => simp [he] at h
+    | panic => simp [he] at h
+    | ok r2 =>
+      obtain ⟨eAddrs, m2⟩ := r2
+      simp only [he] at h
+      obtain ⟨hwf2, hno2, hl2, _⟩ := allocStrings_spec m1 hwf1 hno1 "env" 0 envp eAddrs m2 he
+      refine ⟨aAddrs, eAddrs, m1, m2, rfl, he, ?_⟩
+      generalize hlay : [argv.length] ++ aAddrs ++ [0] ++ eAddrs ++ [0] = layout at h ⊢
+      cases hu : u64add len (layout.length * 8 + 48) with
+      | none => simp [hu] at h
+      | some total =>
+        simp only [hu] at h
+        cases hs : initStackArea m2 total with
+        | err => simp [hs] at h
+        | panic => simp [hs] at h
+        | ok r3 =>
+          obtain ⟨st, m3⟩ := r3
+          simp only [hs] at h
+          obtain ⟨hwf3, hno3⟩ := Ax.C10.stackArea_preserves m2 hwf2 hno2 total st m3 hs
+          cases hu2 : u64add st total with
+          | none => simp [hu2] at h
+          | some e =>
+            simp only [hu2] at h
+            split at h
+            · cases h
+            · cases h
+            · rename_i top m4 hw
+              split at h
+              · cases h
+              · simp only [Out.ok.injEq, Prod.mk.injEq] at h
+                obtain ⟨rfl, rfl⟩ := h
+                obtain ⟨htop, _, _, _⟩ := writeLayout_spec m3 hwf3 hno3 _ _ top m4 hw
+                obtain ⟨hge, hslots, _⟩ := writeLayout_contents _ m3 hwf3 hno3 _ top m4 hw
+                simp only [List.length_reverse] at htop hge hslots
+                intro k hk
+                have hk' : layout.length - 1 - k < layout.length := by omega
+                have hs := (hslots (layout.length - 1 - k) hk').2
+                have hlt := (hslots (layout.length - 1 - k) hk').1
+                have hrev : layout.reverse[layout.length - 1 - k]'(by simpa using hk') = layout[k] := by
+                  rw [List.getElem_reverse]
+                  congr 1; omega
+                rw [hrev] at hs hlt
+                refine ⟨hlt, ?_⟩
+                have htop64 : top < U64 := by
+                  have := (hslots 0 (by omega)).1
+                  -- top ≤ t1 < 2^64 because t1 is the value of a 64-bit vector (possibly minus 8)
+                  have ht1 : (if layout.length % 2 = 1 then (BitVec.ofNat 64 (e - 16) &&& ~~~15#64).toNat - 8
+                      else (BitVec.ofNat 64 (e - 16) &&& ~~~15#64).toNat) < U64 := by
+                    have := (BitVec.ofNat 64 (e - 16) &&& ~~~15#64).isLt
+                    simp only [U64]; split <;> omega
+                  omega
+                have hrsp : ((s.regs.set RSP (BitVec.ofNat 64 top)).get RSP).toNat = top := by
+                  simp [Nat.mod_eq_of_lt htop64]
+                simp only [hrsp]
+                have eaddr : top + 8 + 8 * k =
+                    (if layout.length % 2 = 1 then (BitVec.ofNat 64 (e - 16) &&& ~~~15#64).toNat - 8
+                      else (BitVec.ofNat 64 (e - 16) &&& ~~~15#64).toNat) - 8 * (layout.length - 1 - k) := by
+                  omega
+                rw [eaddr]; exact hs
+
+/-- a successful 8-byte load from a slot returns the value it holds -/
+theorem slot_load (m : Mem) (hm : m.WF) (hno : NoOverlap m) (a v : Nat) (hv : v < U64) (hs : SlotHolds m a v)
+    (v' : Nat) (hr : memReadN m 8 a = .ok v') : v' = v := by
+  unfold memReadN at hr
+  cases hrb : memReadBytes m a 8 with
+  | panic => simp [hrb] at hr
+  | err => simp [hrb] at hr
+  | ok out =>
+    simp only [hrb, Out.ok.injEq] at hr
+    obtain ⟨hl, hbs⟩ := Ax.C08.read_bytes_eq m hm hno a 8 out hrb
+    have : out = leBytes 8 v := by
+      apply List.ext_getElem?
+      intro j
+      by_cases hj : j < 8
+      · rw [hbs j hj, hs j hj]
+      · have h1 : out[j]? = none := by rw [List.getElem?_eq_none]; omega
+        have h2 : (leBytes 8 v)[j]? = none := by rw [List.getElem?_eq_none]; rw [leBytes_length]; omega
+        rw [h1, h2]
+    rw [← hr, this, leNat_leBytes]
+    exact Nat.mod_eq_of_lt (by simpa [U64] using hv)
+
+/-- **POP by POP**: with RSP as `init_stack_program_start` left it, the load that the k-th POP performs (ax loads from
+    RSP + 8 and then adds 8) returns the k-th entry of argc, argv…, 0, envp…, 0 — whenever it succeeds, which the
+    correspondence run observes for every entry. -/
+theorem frame_pops (s : Machine) (hm : s.mem.WF) (hno : NoOverlap s.mem) (len : Nat) (argv envp : List (List Byte))
+    (start : Nat) (s' : Machine) (h : initStackProgramStart s len argv envp = .ok (start, s')) :
+    ∃ aAddrs eAddrs, aAddrs.length = argv.length ∧ eAddrs.length = envp.length ∧
+      ∀ k (hk : k < ([argv.length] ++ aAddrs ++ [0] ++ eAddrs ++ [0]).length) (v' : Nat),
+        memReadN s'.mem 8 ((s'.regs.get RSP).toNat + 8 + 8 * k) = .ok v' →
+        v' = ([argv.length] ++ aAddrs ++ [0] ++ eAddrs ++ [0])[k] := by
+  obtain ⟨aAddrs, eAddrs, m1, m2, ha, he, hslots⟩ := frame_contents s hm hno len argv envp start s' h
+  obtain ⟨hwf1, hno1, hl1, _⟩ := allocStrings_spec s.mem hm hno "arg" 0 argv aAddrs m1 ha
+  obtain ⟨_, _, hl2, _⟩ := allocStrings_spec m1 hwf1 hno1 "env" 0 envp eAddrs m2 he
+  obtain ⟨hwf', hno', _⟩ := init_spec s hm hno len argv envp start s' h
+  refine ⟨aAddrs, eAddrs, hl1, hl2, ?_⟩
+  intro k hk v' hr
+  obtain ⟨hfit, hsl⟩ := hslots k hk
+  exact slot_load s'.mem hwf' hno' _ _ hfit hsl v' hr
+
 
 /-! ## Non-vacuity -/
 example : allocStrings [] "arg" 0 [] = .ok ([], []) := rfl
